@@ -49,6 +49,12 @@ def classify(case, log):
         elif e[0] == "RUN_NOW" and e[2] and e[-1] and e[-1][0] == "inv":
             classes.add("delay/switch-callback-inside-handler")
             classes.add("run_now-of-pending-delay-inside-handler")
+        elif e[0] == "WAITREG":
+            classes.add("wait-future" + ("-registered-inside-handler" if e[3] and e[3][0] == "inv" else ""))
+        elif e[0] == "WAITDONE":
+            classes.add("wait-future-resolved")
+        elif e[0] == "ASYNCDONE":
+            classes.add("post_async-resolved")
         elif e[0] == "REG" and e[-1] and e[-1][0] == "cb":
             classes.add("registry-change-in-callback")
     # priority ties within a dispatch
@@ -63,7 +69,7 @@ def classify(case, log):
     if not case.get("sentinels", True):
         classes.add("no-sentinels")
     nontrivial = bool(classes & {"depth>=2", "registry-change-during-dispatch", "priority-tie", "callback-posts",
-                                 "delay/switch-callback-inside-handler"})
+                                 "delay/switch-callback-inside-handler", "wait-future-resolved", "post_async-resolved"})
     return sorted(classes), nontrivial
 
 
